@@ -284,11 +284,22 @@ def formats(ctx, shard, nshards):
                 rest = fmt
                 for tk in toks:
                     rest = rest.replace(tk, "", 1)
+                # literals in front of or between the specifiers give the scanner its bearings, a
+                # literal behind the last specifier does not (`x%Y%B%d%T` is found, `%Y%B%d%T/` is not)
+                pos, spans = 0, []
+                for tk in toks:
+                    j = fmt.find(tk, pos)
+                    if j < 0:
+                        break
+                    spans.append((j, j + len(tk)))
+                    pos = j + len(tk)
+                between = (fmt[:spans[0][0]] + "".join(fmt[a:b] for (_, a), (b, _) in zip(spans, spans[1:]))) \
+                    if spans and len(spans) == len(toks) else rest
                 if cons.get("roman"):
                     sc = "scan:roman"
                 elif cons.get("bday"):
                     sc = "scan:bizda"
-                elif not rest and (kind != "d" or set(notes) & {"named", "one-letter", "ampm", "ordinal", "count"}):
+                elif not between and (kind != "d" or set(notes) & {"named", "one-letter", "ampm", "ordinal", "count"}):
                     # no literal anywhere between the specifiers, and names or a time among them
                     sc = "scan:unseparated"
                 else:
